@@ -112,7 +112,7 @@ func runSimd(c *Ctx) {
 	// aligned load on such an operand takes the process down)
 	c.Begin("alignment")
 	maxA := c.Pick(40, 300)
-	out, died := runChild(120*time.Second, "align", fmt.Sprint(maxA))
+	out, died := runChild(120*time.Second, "align", fmt.Sprint(maxA), "avx")
 	c.OpLocal("AVX implementation on lengths 1..%d x (a mod 16, b mod 16) in {0,4,8,12}^2 x 3 kernels vs portable: %s", maxA, lastLine(out))
 	c.Nontrivial("alignment")
 	if died || !strings.Contains(out, "align ok") {
@@ -226,9 +226,16 @@ func runSimd(c *Ctx) {
 		c.Violate("C15", "C15/sse/aligned-disagrees", "SSE kernels on aligned data: "+strings.TrimSpace(out), c.History())
 	}
 	out, died = runChild(60*time.Second, "sse", "misaligned", "16")
-	c.OpLocal("SSE kernels on 4-byte aligned (not 16-byte aligned) vectors, n>=4: %s", strings.TrimSpace(out))
+	c.OpLocal("SSE implementation on 4-byte aligned (not 16-byte aligned) vectors, n>=4: %s", strings.TrimSpace(out))
 	if died || !strings.Contains(out, "sse ok") {
 		c.Violate("C15", "C15/sse/misaligned-fault", "the SSE kernels use aligned loads (movaps / memory operands) and fault on a vector that is only 4-byte aligned, n >= 4: "+firstLine(out), c.History())
+	}
+	// every pair of start addresses modulo 16, every length (D29, repaired: the SSE implementation
+	// takes the portable path unless both operands are 16-byte aligned)
+	out, died = runChild(120*time.Second, "align", fmt.Sprint(maxA), "sse")
+	c.OpLocal("SSE implementation on lengths 1..%d x (a mod 16, b mod 16) in {0,4,8,12}^2 x 3 kernels vs portable: %s", maxA, lastLine(out))
+	if died || !strings.Contains(out, "align ok") {
+		c.Violate("C15", "C15/sse/misaligned-fault", "the SSE implementation faults or disagrees with the portable one for some pair of 4-byte-aligned start addresses; last case: "+lastLine(out), c.History())
 	}
 	c.Nontrivial("sse")
 	c.End()
@@ -360,6 +367,9 @@ func childSse(args []string) {
 // 4-byte-aligned start addresses modulo 16
 func childAlign(args []string) {
 	avx, native := space.VerifAvxImpl(), space.VerifNativeImpl()
+	if len(args) > 1 && args[1] == "sse" {
+		avx = space.VerifSseImpl()
+	}
 	var max int
 	fmt.Sscan(args[0], &max)
 	names := []string{"euclid", "manhattan", "cosine"}
